@@ -42,7 +42,7 @@ def check(run):
         run.guard("C05.via.C13.6.priority-suffix", cfg, lambda: _C13t.rule_tie_break(bt, F, cfg))
         from . import C02 as _C02rc
         brc = run.borrow("C02", only=r"regex-text-case|builders-", why="the fused set must match like its members: every builder of compile_regex is configured alike")
-        run.guard("C05.via.C02.3.regex-translation", cfg, lambda: (_C02rc.rule_regex_case(brc, F, cfg), _C02rc.rule_translation(brc, F, cfg)))
+        run.guard("C05.via.C02.3.regex-translation", cfg, lambda: (_C02rc.rule_regex_case(brc, F, cfg), _C02rc.rule_regex_builder(brc, F, cfg)))
 
 
 def select_constraints(F):
